@@ -34,7 +34,7 @@ from .. import common
 from .. import odxgen as G
 
 PROPERTY = "C18"
-LEVEL = "fault_enumeration"
+LEVEL = "exploration"
 RULE = ("generated ODX containers (1-2 base variants x 1-6 services; requests = 1-2 CODED-CONST + "
         "0-3 VALUE parameters, 1-2 positive and 0-2 negative responses (private or shared), 2-6 "
         "DOPs of different types, 0-5 COMPARAM-REFs, implicit or explicit byte positions) plus "
